@@ -99,6 +99,22 @@ theorem toom53_exact (mul : Nat → Nat → Nat) (hmul : ∀ x y, mul x y = x * 
 example : toom53_mul (· * ·) (1 + B * 2 + B ^ 2 * 3 + B ^ 3 * 4 + B ^ 4 * 5) 5 (9 + B * 1 + B ^ 2 * 6) 3
     = (1 + B * 2 + B ^ 2 * 3 + B ^ 3 * 4 + B ^ 4 * 5) * (9 + B * 1 + B ^ 2 * 6) := toom53_exact _ (fun _ _ => rfl) _ _ _ _
 
+/-- The evaluation values fit the 2k+1 limbs the C gives them, with the top-limb bounds it asserts
+    (toom3_mul_n.c: `ASSERT(c2[k+k] < 9)`, `ASSERT(t[k+k] < 4)`, `ASSERT(v2[k+k] < 49)`). -/
+theorem toom3_eval_fits (t a0 a1 a2 b0 b1 b2 : Nat) (ha0 : a0 < t) (ha1 : a1 < t) (ha2 : a2 < t)
+    (hb0 : b0 < t) (hb1 : b1 < t) (hb2 : b2 < t) :
+    (a0 + a2 + a1) * (b0 + b2 + b1) < 9 * t ^ 2 ∧
+    absDiff (a0 + a2) a1 * absDiff (b0 + b2) b1 < 4 * t ^ 2 ∧
+    ((2 * a2 + a1) * 2 + a0) * ((2 * b2 + b1) * 2 + b0) < 49 * t ^ 2 :=
+  toom3_eval_bounds t a0 a1 a2 b0 b1 b2 ha0 ha1 ha2 hb0 hb1 hb2
+
+-- non-vacuity and tightness: all-ones blocks reach top limb 8 = 9 - 1 in v1
+example : ((B - 1) + (B - 1) + (B - 1)) * ((B - 1) + (B - 1) + (B - 1)) / B ^ 2 = 8 := by decide
+
+-- the Toom-4.2 assertion `c2[k+k] < 6` (toom3_mul.c:472) is NOT a consequence of the size preconditions:
+-- with full blocks the top limb of v1 is 7 (see `toom42_eval_bounds`: the true bound is 8·B^2k)
+example : ((B - 1) + (B - 1) + ((B - 1) + (B - 1))) * ((B - 1) + (B - 1)) / B ^ 2 = 7 := by decide
+
 end Mpir.MulAlgo
 
 namespace Mpir.MulDispatch
